@@ -4,7 +4,7 @@ use crate::util::*;
 use minicbor::{data::Type, decode, encode, Decode, Decoder, Encode, Encoder};
 
 #[derive(Debug, Clone, PartialEq)]
-pub enum V { U(u64), B(Vec<u8>), X(Vec<u8>), E }
+pub enum V { U(u64), B(Vec<u8>), X(Vec<u8>), E, T(u64) }
 
 thread_local! {
     /// calls of `V::encode` / `V::decode` since the last reset: a frame writer encodes a value once per `write`, a reader decodes a
@@ -22,6 +22,7 @@ impl<C> Encode<C> for V {
         match self {
             V::U(n) => e.u64(*n)?.ok(),
             V::B(b) => e.bytes(b)?.ok(),
+            V::T(n) => e.u64(*n)?.u8(0)?.ok(),    // one item more than the decoder reads (padding): a frame may hold more than the value consumes
             V::E => Ok(()),                       // writes nothing and succeeds: its frame is the four zero bytes of an empty payload
             V::X(p) => {
                 e.writer_mut().write_all(p).map_err(encode::Error::write)?;
@@ -49,6 +50,7 @@ pub fn parse_val(s: &str) -> Option<V> {
         "b" => unhex(r).map(V::B),
         "x" => unhex(r).map(V::X),
         "e" if r.is_empty() => Some(V::E),
+        "t" => r.parse().ok().map(V::T),
         _ => None
     }
 }
@@ -62,7 +64,8 @@ pub fn show_val(v: &V) -> String {
         V::U(n) => format!("u{}", n),
         V::B(b) => format!("b{}", hex(b)),
         V::X(p) => format!("x{}", hex(p)),
-        V::E => "e".into()
+        V::E => "e".into(),
+        V::T(n) => format!("t{}", n)
     }
 }
 
